@@ -9,6 +9,7 @@ import (
 	"os"
 	"sort"
 	"strconv"
+	"strings"
 	"sync"
 	"time"
 )
@@ -73,6 +74,10 @@ func Rng(stream ...int64) *rand.Rand {
 	return rand.New(rand.NewSource(s))
 }
 
+// WallClockMarker tags the description of an outcome that is due to a wall-clock deadline
+// (the adapter adds it when the server's own request timeout fired after at least 5 s).
+const WallClockMarker = "WALL-CLOCK-TIMEOUT"
+
 func New(property string) *Rec {
 	return &Rec{Property: property, Tier: Tier(), Seed: Seed(), start: time.Now(),
 		distinct: map[string]int{}, viol: map[string]*Violation{}, extra: map[string]any{}, MinDistinct: 2}
@@ -112,6 +117,16 @@ func (r *Rec) Add(k string, n int) {
 func (r *Rec) Violate(sig, what string, replay any) {
 	r.mu.Lock()
 	defer r.mu.Unlock()
+	if strings.Contains(what, WallClockMarker) {
+		// a wall-clock deadline expired: inconclusive, never a verdict
+		r.inconclusive++
+		if v, ok := r.extra["wall_clock_timeouts_not_judged"].(int); ok {
+			r.extra["wall_clock_timeouts_not_judged"] = v + 1
+		} else {
+			r.extra["wall_clock_timeouts_not_judged"] = 1
+		}
+		return
+	}
 	if v, ok := r.viol[sig]; ok {
 		v.Count++
 		return
